@@ -4,7 +4,10 @@ package main
 
 import (
 	"context"
+	"encoding/json"
 	"fmt"
+	"os"
+	"path/filepath"
 	"sort"
 	"strings"
 	"time"
@@ -259,6 +262,15 @@ func buildC08World(c *ctx, w *world) *c08World {
 			// documented, so the worlds do not depend on it)
 			claimOn(p, 0, "set", "camliPath:b", q.ref.String())
 		}
+	}
+	// one permanode with several members whose tags differ (a value-in-set query about one member must not depend on
+	// what the query found out about the members listed before it)
+	if len(pns) >= 4 {
+		hub := pns[0]
+		for _, m := range pns[1:4] {
+			claimOn(hub, 0, "add", "camliMember", m.ref.String())
+		}
+		claimOn(hub, 0, "add", "camliMember", pns[1].ref.String())
 	}
 	for _, p := range cw.blobs {
 		if p.ctype == "permanode" && c.rng.Intn(7) == 0 {
@@ -901,6 +913,7 @@ func genQC(c *ctx, cw *c08World, depth int) *qc {
 		if c.rng.Intn(40) == 0 {
 			*q = qc{} // the empty constraint
 		}
+
 	default:
 		q.op = []string{"and", "and", "and", "or", "or", "xor", "not"}[c.rng.Intn(7)]
 		q.a = genQC(c, cw, depth-1)
@@ -910,6 +923,9 @@ func genQC(c *ctx, cw *c08World, depth int) *qc {
 		if c.rng.Intn(8) == 0 {
 			leaf() // logical plus a field
 		}
+	}
+	if !q.at.IsZero() {
+		q.rel = nil // the reference evaluator knows the edges as they are now, not as of a past time
 	}
 	return q
 }
@@ -942,7 +958,7 @@ func runC08(c *ctx) {
 		for _, b := range cw.blobs {
 			byRef[b.ref] = b
 		}
-		for qi := 0; qi < c.n(170, 260); qi++ {
+		for qi := 0; qi < c.n(185, 275); qi++ {
 			q := genQC(c, cw, 1+c.rng.Intn(3))
 			nt := func(v string) *qc { return &qc{perm: true, attr: "camliNodeType", val: v} }
 			shapes := []*qc{
@@ -1013,7 +1029,12 @@ func runC08(c *ctx) {
 					&qc{op: op, a: ins("camliMember", tagq("y")), b: ins("camliMember", &qc{op: "not", a: tagq("y")})},
 					&qc{op: op, a: ins("camliPath:a", &qc{camli: "permanode"}), b: ins("camliMember", tagq("z"))})
 			}
+			for _, v := range []string{"x", "y", "z", "w", "v"} {
+				shapes = append(shapes, ins("camliMember", tagq(v)), ins("camliMember", &qc{perm: true, attr: "tag", vmEquals: v}))
+			}
 			shapes = append(shapes,
+				ins("camliMember", &qc{perm: true, attr: "title", vmPrefix: "Title"}),
+				ins("camliMember", &qc{perm: true, attr: "camliNodeType", val: "foo"}),
 				&qc{op: "and", a: ins("camliMember", &qc{camli: "permanode"}), b: &qc{op: "not", a: ins("camliMember", tagq("x"))}},
 				ins("camliMember", ins("camliMember", tagq("x"))))
 			if q.String() != "" && strings.Contains(q.String(), "relation{") {
@@ -1096,6 +1117,18 @@ func runC08(c *ctx) {
 					}
 				}
 			}
+		}
+		if os.Getenv("VERIF_C08_DUMP") == wname { // debugging aid: the harness's facts about one world
+			var dump []map[string]any
+			for _, b := range cw.blobs {
+				var hist []string
+				for _, h := range b.hist {
+					hist = append(hist, fmt.Sprintf("%s %s %s=%s", h.t.Format("15:04:05.000"), h.kind, h.attr, h.v))
+				}
+				dump = append(dump, map[string]any{"rank": b.rank, "ref": b.ref.String(), "type": b.ctype, "attrs": b.attrs, "hist": hist, "deleted": b.deleted})
+			}
+			js, _ := json.MarshalIndent(dump, "", " ")
+			os.WriteFile(filepath.Join(c.out, "dump_"+wname+".json"), js, 0o644)
 		}
 		c.preamble = append(c.preamble, fmt.Sprintf("Definition %s : world :=\n  %s.", wname, cw.coq()))
 	}
